@@ -73,8 +73,9 @@ PrefixHexOf(a) ==
   LET v == PrefixVariant(VariantOfKey(a.kt, a.p))
   IN BytesToHex(Prefix(v, IF v = "NO_PREFIX" THEN <<>> ELSE HexToBytes(a.id)))
 
-\* JWT key types have a KID() accessor
+\* JWT key types have a KID() accessor (as built: the symmetric and the public keys; a private key's kid is its public key's)
 KidTypes == {"JwtHmac", "JwtEcdsa", "JwtRsaSsaPkcs1", "JwtRsaSsaPss", "JwtMlDsa"}
+HasKidAccessor(a) == a.kt \in KidTypes /\ a.kind # "private"
 \* base64url without padding (RFC 4648 section 5) of the 4 id bytes, as ASCII codes (6 characters)
 B64UrlAlphabet == StrToBytes("ABCDEFGHIJKLMNOPQRSTUVWXYZabcdefghijklmnopqrstuvwxyz0123456789-_")
 B64Url4(b) ==
@@ -140,7 +141,7 @@ JudgeKey(a, o) ==
   ELSE IF o.hasprefix # (a.kt \in PrefixTypes) THEN <<"exp: which key types have an OutputPrefix accessor", pre>>
   ELSE IF o.hasprefix /\ o.prefix # PrefixHexOf(a)
          THEN <<"doc: OutputPrefix() is not the documented function of (variant, id)", pre, VariantOfKey(a.kt, a.p), PrefixHexOf(a)>>
-  ELSE IF o.haskid # (a.kt \in KidTypes) THEN <<"exp: which key types have a KID accessor", pre>>
+  ELSE IF o.haskid # HasKidAccessor(a) THEN <<"exp: which key types have a KID accessor", pre>>
   ELSE IF o.haskid /\ <<o.kid, o.kidset>> # KidOf(a, o.ckid)
          THEN <<"doc: KID() is not the documented function of (kid strategy, id, custom kid)", pre, a.p.kidStrategy, KidOf(a, o.ckid)[1]>>
   ELSE IF o.unstable # <<>> THEN <<"doc: an accessor returns another value on its second call", pre, o.unstable[1]>>
